@@ -13,6 +13,7 @@ From Coq Require Import List NArith Bool.
 From V Require Proofs.ExprsTie2.   (* expressions of cube.rs / ecube.rs / bdd.rs / canonization.rs, regenerated from the Rust source, equal the model's *)
 From V Require Proofs.GrayAll Proofs.CanonAllN.
 From V Require Proofs.SjtAll Proofs.CanonNpnAll.
+From V Require Import Checkers.Check Proofs.CheckSound Proofs.CheckSoundCanon Proofs.CheckSoundCanonSample.   (* the extracted checkers and their soundness proofs, pinned at the end of this file *)
 From V Require Import Base.Res Model.Kernels Model.Canon Spec.Bfun Spec.Transform Proofs.Order Proofs.ActGroup
   Proofs.CanonWalk Proofs.CanonOrbit.
 Import ListNotations.
@@ -177,3 +178,113 @@ Print Assumptions C04_npn_idempotent_general.
 Print Assumptions C04_npn_same_rep_iff_general.
 Print Assumptions C04_sjt_general.
 Print Assumptions C04_coverage_P_general.
+
+
+(* ---- soundness of the extracted checkers that decide this property's statement on the implementation's results *)
+Theorem C04_checker_is_permb_iff : forall n p,
+  is_permb n p = true <-> is_perm n p.
+Proof. exact CheckSoundCanon.is_permb_iff. Qed.
+
+Theorem C04_checker_cert_iff : forall n f c perm mask,
+  chk_cert n f c perm mask = true <-> wf n c /\ cert_ok n (val f) (val c) perm mask.
+Proof. exact CheckSoundCanon.chk_cert_iff. Qed.
+
+Theorem C04_checker_act_num_big : forall n perm mask f c',
+  wf n c' ->
+  (forall y, y < 2 ^ N.of_nat n -> val c' y = act n perm mask (val f) y) -> act_num n perm mask f = big c'.
+Proof. exact CheckSoundCanon.act_num_big. Qed.
+
+Theorem C04_checker_minimal_iff : forall g n f c,
+  chk_minimal g n f c = true <->
+  forall perm' mask', in_group g n perm' mask' -> bigN c <= act_num n perm' mask' f.
+Proof. exact CheckSoundCanon.chk_minimal_iff. Qed.
+
+Theorem C04_checker_minimal_spec : forall g n f c,
+  chk_minimal g n f c = true <->
+  forall perm' mask' c', in_group g n perm' mask' -> wf n c' ->
+    (forall y, y < 2 ^ N.of_nat n -> val c' y = act n perm' mask' (val f) y) -> big c <= big c'.
+Proof. exact CheckSoundCanon.chk_minimal_spec. Qed.
+
+Theorem C04_checker_minimal_p_model : forall n t c perm,
+  (n <= 8)%nat -> wf n t ->
+  p_canonization n t = Ok (c, perm) -> chk_minimal 0 n t c = true.
+Proof. exact CheckSoundCanon.chk_minimal_p_model. Qed.
+
+Theorem C04_checker_minimal_n_model : forall n t c mask,
+  (n <= 8)%nat -> wf n t ->
+  n_canonization n t = Ok (c, mask) -> chk_minimal 1 n t c = true.
+Proof. exact CheckSoundCanon.chk_minimal_n_model. Qed.
+
+Theorem C04_checker_minimal_npn_model : forall n t c perm mask,
+  (n <= 8)%nat -> wf n t ->
+  npn_canonization n t = Ok (c, perm, mask) -> chk_minimal 2 n t c = true.
+Proof. exact CheckSoundCanon.chk_minimal_npn_model. Qed.
+
+Theorem C04_checker_canon_unique : forall g n f c1 p1 m1 c2 p2 m2,
+  in_group g n p1 m1 -> chk_cert n f c1 p1 m1 = true -> chk_minimal g n f c1 = true ->
+  in_group g n p2 m2 -> chk_cert n f c2 p2 m2 = true -> chk_minimal g n f c2 = true ->
+  c1 = c2.
+Proof. exact CheckSoundCanon.chk_canon_unique. Qed.
+
+Theorem C04_checker_canon_npn_is_model : forall n t c perm mask c' perm' mask',
+  (n <= 8)%nat -> wf n t ->
+  npn_canonization n t = Ok (c, perm, mask) ->
+  is_perm n perm' -> mask' < 2 ^ (N.of_nat n + 1) ->
+  chk_cert n t c' perm' mask' = true -> chk_minimal 2 n t c' = true -> c' = c.
+Proof. exact CheckSoundCanon.chk_canon_npn_is_model. Qed.
+
+Theorem C04_checker_in_groupb_iff : forall g n perm mask,
+  in_groupb g n perm mask = true <-> in_group g n perm mask.
+Proof. exact CheckSoundCanonSample.in_groupb_iff. Qed.
+
+Theorem C04_checker_below_iff : forall g n f c elems,
+  chk_below g n f c elems = true <->
+  forall perm' mask', In (perm', mask') elems -> in_group g n perm' mask' -> bigN c <= act_num n perm' mask' f.
+Proof. exact CheckSoundCanonSample.chk_below_iff. Qed.
+
+Theorem C04_checker_minimal_below : forall g n f c elems,
+  chk_minimal g n f c = true -> chk_below g n f c elems = true.
+Proof. exact CheckSoundCanonSample.chk_minimal_below. Qed.
+
+Theorem C04_checker_below_complete : forall g n f c elems,
+  (forall p m, in_group g n p m -> In (p, m) elems) -> chk_below g n f c elems = true -> chk_minimal g n f c = true.
+Proof. exact CheckSoundCanonSample.chk_below_complete. Qed.
+
+Theorem C04_checker_below_p_model : forall n t c perm elems,
+  (n <= 8)%nat -> wf n t ->
+  p_canonization n t = Ok (c, perm) -> chk_below 0 n t c elems = true.
+Proof. exact CheckSoundCanonSample.chk_below_p_model. Qed.
+
+Theorem C04_checker_below_n_model : forall n t c mask elems,
+  (n <= 8)%nat -> wf n t ->
+  n_canonization n t = Ok (c, mask) -> chk_below 1 n t c elems = true.
+Proof. exact CheckSoundCanonSample.chk_below_n_model. Qed.
+
+Theorem C04_checker_below_npn_model : forall n t c perm mask elems,
+  (n <= 8)%nat -> wf n t ->
+  npn_canonization n t = Ok (c, perm, mask) -> chk_below 2 n t c elems = true.
+Proof. exact CheckSoundCanonSample.chk_below_npn_model. Qed.
+
+Theorem C04_checker_below_reject : forall g n f c elems,
+  chk_below g n f c elems = false ->
+  exists perm' mask', in_group g n perm' mask' /\ act_num n perm' mask' f < bigN c.
+Proof. exact CheckSoundCanonSample.chk_below_reject. Qed.
+
+Print Assumptions C04_checker_is_permb_iff.
+Print Assumptions C04_checker_cert_iff.
+Print Assumptions C04_checker_act_num_big.
+Print Assumptions C04_checker_minimal_iff.
+Print Assumptions C04_checker_minimal_spec.
+Print Assumptions C04_checker_minimal_p_model.
+Print Assumptions C04_checker_minimal_n_model.
+Print Assumptions C04_checker_minimal_npn_model.
+Print Assumptions C04_checker_canon_unique.
+Print Assumptions C04_checker_canon_npn_is_model.
+Print Assumptions C04_checker_in_groupb_iff.
+Print Assumptions C04_checker_below_iff.
+Print Assumptions C04_checker_minimal_below.
+Print Assumptions C04_checker_below_complete.
+Print Assumptions C04_checker_below_p_model.
+Print Assumptions C04_checker_below_n_model.
+Print Assumptions C04_checker_below_npn_model.
+Print Assumptions C04_checker_below_reject.
